@@ -177,17 +177,17 @@ theorem C04_ugc_urls (input : Bytes) :
 
 /-- **C04-UGC, URLs as a browser reads them**: every href / cite / src at a checked position is,
     by the WHATWG scheme-state rules, a URL with scheme mailto, http or https — never javascript:,
-    data:, vbscript: or any other — or the printed form of a scheme-less reference -/
+    data:, vbscript: or any other — or a relative reference -/
 theorem C04_ugc_urls_browser (input : Bytes) :
     ∀ k ∈ tokenize (Gen.ugcPolicy.sanitizeCore input), (k.tt = .start ∨ k.tt = .selfClosing) →
       ∀ b ∈ k.attrs, isUrlPosition k.data b.key = true →
         (∃ s, classifyUrl b.val = .scheme s ∧ [b!"mailto", b!"http", b!"https"].contains s = true) ∨
-        (∃ u : Url.URL, b.val = Url.print u ∧ u.scheme = []) := by
+        classifyUrl b.val = .relative := by
   intro k hk htt b hb hpos
   have hreq : Gen.ugcPolicy.ensureInit.requireParseableURLs = true := by rw [ugc_init]; decide
   have hnr : Gen.ugcPolicy.ensureInit.srcRewriter = none := by rw [ugc_init]; rfl
   obtain ⟨raw, hv⟩ := C03_bytes Gen.ugcPolicy ugc_plain hreq input k hk htt b hb hpos (fun _ => hnr)
-  rcases C03_browser_scheme _ hreq raw b.val hv with ⟨s, hcl, _, hs⟩ | ⟨u, hp, he, _, _⟩
+  rcases C03_browser _ hreq raw b.val hv with ⟨s, hcl, _, hs⟩ | ⟨hrel, _, _⟩
   · left
     refine ⟨s, hcl, ?_⟩
     rw [ugc_init] at hs
@@ -198,7 +198,7 @@ theorem C04_ugc_urls_browser (input : Bytes) :
       exact List.all_eq_true.mp hschemes _ hmem
     · have : Gen.ugcPolicy.allowURLSchemeRegexps = [] := by decide
       rw [this] at hre; simp at hre
-  · exact .inr ⟨u, hp, he⟩
+  · exact .inr hrel
 
 /-- non-vacuity: the regenerated policy keeps documented markup and removes the rest -/
 example : Gen.ugcPolicy.sanitizeCore b!"<a href=\"http://x/\" onclick=\"y\">t</a><script>1</script><p style=\"x\">p</p>" =
